@@ -21,9 +21,11 @@
                                     `strip` make of its text): token lists with the same observations give the same
                                     declaration list and the same error;
     `c13_obs_swallowed`            — and the observation of a NAME / DEFS / ENUM / DEFINE token does not depend on the blanks
-                                    it swallowed;
-    `c13_parse_layout_independent` — so two texts whose comment-stripped forms have the same lexemes yield the same
-                                    declaration list.
+                                    it swallowed, nor — for an enum head — on the blanks around its name, around `:` and
+                                    BETWEEN THE WORDS of a multi-word base type (`lexSim`; the handler reads the type as
+                                    `" ".join(type.split())` since the repair of the `_enum` handler, `c13_enum_type_words`);
+    `c13_parse_layout_independent` — so two texts whose comment-stripped forms have the same lexemes up to `lexSim` yield
+                                    the same declaration list.
   * `c13_declarator_of_lexeme`    — what `_parse_field_type` extracts from a well-formed declarator: the pointer depth is the
                                     number of stars whatever blanks stand between them (`c13_star_spacing`; a blank between
                                     the stars used to lose a level — repaired in the library), the array dimensions are
@@ -63,18 +65,25 @@ theorem c13_decls_layout_independent (ts ts' : List Tok) (h : ts.map Tok.obs = t
   have hl : ts.length = ts'.length := by simpa using congrArg List.length h
   simp only [parseToks, h, hl]
 
-theorem c13_obs_swallowed (ac ac' : Bool) (x : Lexeme) (s s' : List Char) (r r' : List (Lexeme × List Char))
-    (h : adm ac ((x, s) :: r) = true) (h' : adm ac' ((x, s') :: r') = true) : (tokOf x s).obs = (tokOf x s').obs :=
-  obs_tokOf ac ac' x s s' r r' h h'
+theorem c13_obs_swallowed (ac ac' : Bool) (x x' : Lexeme) (s s' : List Char) (r r' : List (Lexeme × List Char))
+    (hx : lexSim x x' = true) (h : adm ac ((x, s) :: r) = true) (h' : adm ac' ((x', s') :: r') = true) :
+    (tokOf x s).obs = (tokOf x' s').obs :=
+  obs_tokOf ac ac' x x' s s' r r' hx h h'
 
 theorem parseDecls_eq (t : List Char) : parseDecls t = parseToks (scan (Parser.strip t)) := rfl
 
 theorem c13_parse_layout_independent (t t' w w' : List Char) (l l' : List (Lexeme × List Char))
     (ht : Parser.strip t = w ++ render l) (ht' : Parser.strip t' = w' ++ render l')
-    (hw : blank w = true) (hw' : blank w' = true) (h : adm false l = true) (h' : adm false l' = true) (hs : sameLexemes l l') :
-    parseDecls t = parseDecls t' := by
+    (hw : blank w = true) (hw' : blank w' = true) (h : adm false l = true) (h' : adm false l' = true)
+    (hs : simLexemes l l' = true) : parseDecls t = parseDecls t' := by
   rw [parseDecls_eq, parseDecls_eq, ht, ht', scan_lead w l hw h, scan_lead w' l' hw' h']
   exact c13_decls_layout_independent _ _ (toks_obs l l' false false h h' hs)
+
+/-- the base type of an enum is read as its words joined by single blanks, whatever blanks separate them in the text -/
+theorem c13_enum_type_words (more : List (List Char × List Char)) (w0 : List Char) (h0 : isWordStr w0 = true)
+    (hm : ∀ p ∈ more, blank p.1 = true ∧ p.1 ≠ [] ∧ isWordStr p.2 = true) :
+    normType (typeWords w0 more) = joinBlank (w0 :: more.map (·.2)) :=
+  normType_typeWords more w0 h0 hm
 
 theorem c13_declarator_of_lexeme (pre w : List Char) (bits : Option (List Char × List Char × List Char)) (cnt : Option (List Char))
     (hwf : (Lexeme.name pre w bits cnt).wf = true) :
@@ -113,7 +122,7 @@ theorem c13_comment_is_blank (a o body b w w' : List Char) (l l' : List (Lexeme 
     (hw : blank w = true) (hw' : blank w' = true) (hl : adm false l = true) (hl' : adm false l' = true) (hs : sameLexemes l l') :
     parseDecls (a ++ ('/' :: '*' :: body ++ '*' :: '/' :: b)) = parseDecls (a ++ b) := by
   rw [c13_comment_block_is_newlines a o body b h hb]
-  exact c13_parse_layout_independent _ _ w' w l' l ht' ht hw' hw hl' hl hs.symm
+  exact c13_parse_layout_independent _ _ w' w l' l ht' ht hw' hw hl' hl (simLexemes_of_same l' l hs.symm)
 
 -- ------------------------------------------------------------------------------------------------ non-vacuity
 namespace Example
@@ -197,11 +206,18 @@ example : (scan (S "#define A")).map (·.kind) = [.ident, .ident] ∧
           (scan (S "#define A  ")).map (·.kind) = [.define] ∧
           (parseDecls (S "#define A  ")).1.map encDecl = ["(const \"A\" \" \")"] := by
   decide +kernel
--- (5) inside the base type of an enum blanks are kept: the type text of `unsigned  int` (two blanks, or a comment with a blank
---     on either side, or a newline) is not the name `unsigned int` (the real library raises ResolveError)
+-- (5) the base type of an enum: blanks, a comment or a newline between its words do not matter (they did before the repair of
+--     the `_enum` handler: the type text `unsigned  int` was looked up as it stood)
 example : (parseDecls (S "enum E : unsigned int { A };")).1.map encDecl = ["(enum \"E\" \"unsigned int\" [(\"A\")])"] ∧
-          (parseDecls (S "enum E : unsigned /* c */ int { A };")).1.map encDecl = ["(enum \"E\" \"unsigned  int\" [(\"A\")])"] := by
+          (parseDecls (S "enum E : unsigned /* c */ int { A };")).1.map encDecl = ["(enum \"E\" \"unsigned int\" [(\"A\")])"] ∧
+          (parseDecls (S "enum E :unsigned\n\tint{ A };")).1.map encDecl = ["(enum \"E\" \"unsigned int\" [(\"A\")])"] := by
   decide +kernel
+-- ... by the theorem: two enum heads with different inner blanks
+def enumL (ws1 ws2 a t b sep : String) : List (Lexeme × List Char) :=
+  [(.enum true (S ws1) (S "F") (S ws2) (some (S a, S t, S b)) (S " X = 1, Y "), S sep), (.semi, [])]
+example : parseDecls (S "flag  F\n:\tunsigned \n long\t\tlong\n{ X = 1, Y }\n;") = parseDecls (S "flag F : unsigned long long { X = 1, Y };") :=
+  c13_parse_layout_independent _ _ [] [] (enumL "  " "\n" "\t" "unsigned \n long\t\tlong" "\n" "\n") (enumL " " " " " " "unsigned long long" " " "")
+    (by decide +kernel) (by decide +kernel) rfl rfl (by decide +kernel) (by decide +kernel) (by decide +kernel)
 -- pointer depth: `**p`, `* * p` and `*\n*p` are the same declarator
 example : parseDeclarator (S "* *p[2][3]") = .ok ⟨2, S "p", [S "2", S "3"], none⟩ ∧
           parseDeclarator (S "**p[2][3]") = parseDeclarator (S "*\n*  p[2][3]") := by
@@ -226,3 +242,4 @@ end Cstruct.DefParser.C13
 #print axioms Cstruct.DefParser.C13.c13_comment_is_blank
 #print axioms Cstruct.DefParser.C13.c13_declarator_of_lexeme
 #print axioms Cstruct.DefParser.C13.c13_star_spacing
+#print axioms Cstruct.DefParser.C13.c13_enum_type_words
